@@ -64,7 +64,7 @@ def run(ctx):
     from fast_ticc import cluster_maintenance as cm, data_preparation as dp
     from fast_ticc.containers import arguments, model_state
     rng = np.random.default_rng(ctx.seed)
-    ctx.proof_layer(allowed_axioms=core.R_AX, coq_deps=["Corr/RunStats"], gen=["cluster_maintenance", "gl_optimize", "gl_setup"])
+    ctx.proof_layer(allowed_axioms=core.R_AX, coq_deps=["Corr/RunStats"], gen=["cluster_maintenance", "gl_optimize", "gl_setup", "cm_update_all", "gl_stats"])
     core.note_drift(ctx, ANCHORS)
     cov = core.LineCoverage()
     lits, meta = [], []
